@@ -81,6 +81,10 @@ def run(ctx):
         if 'H2' in l:
             for p in ('begin', 'after_settings'):
                 scheds.append({'id': len(scheds), 'park': p, 'later': list(l), 'writer_gate': True})
+        # the client resets request 1 while its handler sits inside Marshal: the handler goroutine outlives its stream (no stream is open
+        # any more), and the frames that follow are captured for the connection all the same - under the same lock
+        for p in ('begin', 'after_settings'):
+            scheds.append({'id': len(scheds), 'park': p, 'later': list(l), 'writer_gate': False, 'reset_first': True})
     vin = os.path.join(ctx.scratch, 'c07_in.json')
     vout = os.path.join(ctx.scratch, 'c07_out.json')
     vf.write_graph(scheds, vin)
@@ -110,7 +114,9 @@ def run(ctx):
                           {'schedule': sc, 'observed': o})
         rep = {'schedule': sc, 'observed': o, 'snapshots': allowed1}
         fp1 = o.get('fp1') or []
-        if len(fp1) != 1 or fp1[0] not in allowed1:
+        if sc.get('reset_first'):
+            pass    # request 1 was given up by its client: there is no forwarded request to look at
+        elif len(fp1) != 1 or fp1[0] not in allowed1:
             ctx.violation({'check': 'C07', 'kind': 'torn_fingerprint', 'park': sc['park'], 'writer_gate': sc['writer_gate']},
                           'request 1 parked at marshal.%s while %s arrived%s: forwarded with %r, which is the fingerprint of no instant; snapshots: %r'
                           % (sc['park'], sc['later'], ' (serve goroutine parked between its two writes)' if sc['writer_gate'] else '', fp1, allowed1), rep)
